@@ -432,5 +432,12 @@ class GenericSeq:
             self.on_enter(interp, env)
         return [self.elem]
 
+    def pyvc_iter(self, interp: Any) -> List[Any]:
+        """iteration outside a `for` statement (comprehension, list(...), sum(...)): ONE arbitrary element;
+        the traversal is counted (a caller's one-shot iterator can be consumed only once), the
+        loop-invariant hook belongs to `for` statements and is not run"""
+        self.entered += 1
+        return [self.elem]
+
     def pyvc_types(self) -> Any:
         return {"list", "Iterable", "Sequence"}
